@@ -175,7 +175,8 @@ theorem filterMap_pat_nil (es : List Elem) (h : es.all (fun e => !e.isPat) = tru
 theorem parseElems_shape (env : RegexEnv) (k : SetKind) (es : List Elem) (new : SetObj)
     (hno : ar = true ∨ (k = .aspath → es.all (fun e => !e.isPat) = true))
     (h : parseElems env k es = some new) : shapeOk ar k new = true := by
-  cases k <;> simp only [parseElems] at h
+  replace h := parseElems_some h
+  cases k <;> simp only [parseElems0] at h
   · split at h
     · simp at h; subst h; simp [shapeOk]
     · simp at h
@@ -237,10 +238,11 @@ theorem foldl_filter_nil {β} (l : List β) (f : List String → β → List Str
 
 theorem remove_shape (env : RegexEnv) (k : SetKind) (ex n : SetObj) (es : List Elem)
     (h1 : shapeOk ar k ex = true) (h : ex.remove env k es = some n) : shapeOk ar k n = true := by
+  replace h := SetObj.remove_some h
   cases ex with
   | «prefix» l z z6 =>
       cases k <;> simp [shapeOk] at h1
-      simp only [SetObj.remove] at h
+      simp only [SetObj.remove0] at h
       simp at h; subst h
       -- the fold keeps the `.prefix` shape
       suffices ∀ (acc : SetObj), shapeOk ar .prefix acc = true →
@@ -264,10 +266,10 @@ theorem remove_shape (env : RegexEnv) (k : SetKind) (ex n : SetObj) (es : List E
               · simp [h1, h2, h3]
   | neighbor l =>
       cases k <;> simp [shapeOk] at h1
-      simp [SetObj.remove] at h; subst h; simp [shapeOk]
+      simp [SetObj.remove0] at h; subst h; simp [shapeOk]
   | aspath ss rs =>
       cases k <;> simp [shapeOk] at h1
-      simp only [SetObj.remove] at h
+      simp only [SetObj.remove0] at h
       split at h
       · simp at h; subst h
         simp only [shapeOk]
@@ -278,7 +280,7 @@ theorem remove_shape (env : RegexEnv) (k : SetKind) (ex n : SetObj) (es : List E
           simp
       · simp at h
   | strs l =>
-      cases k <;> simp [shapeOk] at h1 <;> simp only [SetObj.remove] at h
+      cases k <;> simp [shapeOk] at h1 <;> simp only [SetObj.remove0] at h
       · cases hm : List.mapM (parseCommunity env) (es.filterMap Elem.pat?) with
         | none => simp [hm] at h
         | some rs => simp [hm] at h; subst h; simp [shapeOk]
